@@ -1,21 +1,227 @@
 /-
   C09 — the in-memory backend obeys IMAP mailbox semantics (reference model M10).
-  Property theorems only; helper lemmas are in Lemmas/Mailbox*.lean.
+  Property theorems only; helper lemmas are in Lemmas/Mailbox{Section,Inv,Ops,Cmds}.lean.
 
   "Equals the reference model" is the correspondence (Drive/C09.lean, harness c09.go) — what is
-  proved here are the semantic laws of the property on the model, for all histories.
+  proved here are the semantic laws of the property on the model `GoImap.Mailbox`, for ALL command
+  histories (`run`, any number of connections, any interleaving, both behaviour variants where
+  the law does not depend on a repair).
 
   Proved here:
-    * `section_total` — no body section, no partial range `<offset.size>` (any naturals, in
-      particular up to 2^63-1 with the int64 wrap of `offset+size`) makes `bodySection` panic;
-      `section_partial_spec` — what a partial returns (the bytes offset..offset+size, clipped);
-      `legacy_section_counterexample` — as shipped, `BODY[]<1.9223372036854775807>` panicked.
+    * `uid_strict` — in every reachable state, in every mailbox object (named, renamed or deleted
+      but still selected), UIDs strictly increase along the message list and lie below uidNext;
+      `uid_never_reused` — along any further history uidNext never decreases, identity and
+      UIDVALIDITY are kept, and a message whose UID is below an earlier uidNext is one of the
+      messages that carried that UID then.
+    * `uidvalidity_fresh` — all mailbox objects ever created have pairwise different UIDVALIDITY;
+      `create_uidvalidity_gt` — CREATE gives the new mailbox a UIDVALIDITY above every mailbox that
+      ever existed (so delete + recreate of a name changes it); `delete_recreate_example`.
+    * `appenduid_names`, `copyuid_names` — the reported UIDs are exactly the UIDs of the new
+      messages, in order, appended after the old content; nothing else changes.
+    * `store_exact`, `store_flags_sem` — STORE changes the flags of exactly the addressed messages
+      (every other message, mailbox and field is untouched), by set/add/remove on lower-cased names.
+    * `expunge_exact`, `move_exact` — what is left is exactly the non-eligible / non-addressed
+      messages in order; MOVE's destination receives the copies.
+    * `search_sem` — SEARCH returns exactly the messages satisfying `matchesC` (M5) on the
+      criteria built from the keys; `list_sem` — LIST selects exactly the names `C20.Resolved`.
+    * `section_total`, `section_partial_spec`, `legacy_section_counterexample` — partial ranges.
+    * `legacy_move_counterexample`, `legacy_fetch_zero_counterexample`,
+      `legacy_static_set_counterexample`, `legacy_status_counterexample`,
+      `legacy_copy_empty_counterexample` — the behaviour before each repair, on a concrete history.
 
-  Validated by the oracle and the correspondence only: see the status list at the end of this file.
+  Validated by the correspondence and the oracle only (not theorems): the rendering of responses,
+  STATUS counters, poll/EXISTS bookkeeping per connection (that is C07/C08's `Inv`), and everything
+  go-message derives (multipart, ENVELOPE, BODYSTRUCTURE), which is outside the model.
 -/
+import GoImap.Lemmas.MailboxCmds
 import GoImap.Lemmas.MailboxSection
+import GoImap.Props.C20
 namespace GoImap.C09
 open GoImap GoImap.Mailbox GoImap.MailboxLemmas
+
+/-! ### UIDs -/
+
+/-- in every state reachable by any history (any behaviour variant), UIDs strictly increase along
+    every mailbox and uidNext is above all of them -/
+theorem uid_strict (cfg : Cfg) (n : Nat) (ops : List (Nat × Cmd)) :
+    ∀ o ∈ (run cfg (init n) ops).1.objs,
+      (o.msgs.map (·.uid)).Pairwise (· < ·) ∧ ∀ m ∈ o.msgs, m.uid < o.uidNext :=
+  (trans_sound (T_run cfg ops (init n)) (coreInv_init n)).1.ok
+
+/-- UIDs are never reused: whatever happens later to a mailbox object, its uidNext does not
+    decrease and any message found below the earlier uidNext already carried that UID -/
+theorem uid_never_reused (cfg : Cfg) (n : Nat) (ops₁ ops₂ : List (Nat × Cmd)) :
+    let st := (run cfg (init n) ops₁).1
+    ∀ o ∈ st.objs, ∃ o' ∈ (run cfg st ops₂).1.objs,
+      o'.id = o.id ∧ o'.uidValidity = o.uidValidity ∧ o.uidNext ≤ o'.uidNext ∧
+      ∀ m' ∈ o'.msgs, m'.uid < o.uidNext → ∃ m ∈ o.msgs, m.uid = m'.uid := by
+  intro st o ho
+  have hi := (trans_sound (T_run cfg ops₁ (init n)) (coreInv_init n)).1
+  obtain ⟨o', ho', ev⟩ := (trans_sound (T_run cfg ops₂ st) hi).2.2.2 o ho
+  exact ⟨o', ho', ev.id, ev.uidv, ev.next, ev.old⟩
+
+example : (run {} (init 1) [(1, .append inboxName [] none [] [120] 0 false), (1, .select inboxName false),
+    (1, .store false [⟨1, 1⟩] .add true [deletedFlag]), (1, .expunge), (1, .append inboxName [] none [] [121] 0 false)]).1.objs.map
+      (fun o => (o.msgs.map (·.uid), o.uidNext)) = [([2], 3)] := by decide
+
+/-! ### UIDVALIDITY -/
+
+/-- all mailbox objects that ever existed (including deleted ones) have different UIDVALIDITY -/
+theorem uidvalidity_fresh (cfg : Cfg) (n : Nat) (ops : List (Nat × Cmd)) :
+    ((run cfg (init n) ops).1.objs.map (·.uidValidity)).Nodup :=
+  (trans_sound (T_run cfg ops (init n)) (coreInv_init n)).1.uvnd
+
+/-- CREATE of a free name makes a new object whose UIDVALIDITY exceeds that of every mailbox that
+    ever existed — in particular of a deleted predecessor of the same name -/
+theorem create_uidvalidity_gt (cfg : Cfg) (n : Nat) (ops : List (Nat × Cmd)) (name : Str) :
+    let st := (run cfg (init n) ops).1
+    st.lookup (dropTrailingSlash name) = none →
+    ∃ new, (doCreate st name).1.objs = st.objs ++ [new] ∧ (doCreate st name).1.lookup (dropTrailingSlash name) = some new.id ∧
+      ∀ o ∈ st.objs, o.uidValidity < new.uidValidity := by
+  intro st hfree
+  have hi := (trans_sound (T_run cfg ops (init n)) (coreInv_init n)).1
+  refine ⟨⟨st.nextId, dropTrailingSlash name, st.prevUidValidity + 1, 1, false, []⟩, ?_, ?_, ?_⟩
+  · unfold doCreate; simp only; rw [hfree]
+  · unfold doCreate; simp only; rw [hfree]
+    unfold St.lookup at hfree ⊢
+    simp only
+    rw [List.lookup_append, hfree]
+    simp [List.lookup]
+  · intro o ho
+    exact Nat.lt_succ_of_le (hi.uvle o ho)
+
+/-- delete + recreate on a concrete history: INBOX's successor has another UIDVALIDITY -/
+theorem delete_recreate_example :
+    (run {} (init 1) [(1, .delete inboxName), (1, .create inboxName)]).1.objs.map (fun o => (o.name, o.uidValidity))
+      = [(inboxName, 1), (inboxName, 2)] := by decide
+
+/-! ### APPENDUID / COPYUID -/
+
+/-- APPEND to an existing mailbox answers OK [APPENDUID uidvalidity u] where `u` is the UID of the
+    one new message, which is appended after the unchanged old content; no other mailbox changes -/
+theorem appenduid_names (st : St) (cid : Nat) (n : Str) (m : Message) (id : Nat) (o : Mbox)
+    (hl : st.lookup n = some id) (ho : st.getObj id = some o) :
+    let r := doAppend st cid n m
+    r.2.status = .ok ∧ r.2.code = .appenduid o.uidValidity o.uidNext ∧
+    (∃ o', r.1.getObj id = some o' ∧ o'.msgs = o.msgs ++ [{ m with uid := o.uidNext }] ∧ o'.uidNext = o.uidNext + 1) ∧
+    ∀ id', id' ≠ id → r.1.getObj id' = st.getObj id' := by
+  obtain ⟨h1, h2, h3, h4⟩ := doAppend_spec st cid n m id o hl ho
+  exact ⟨h1, h2, ⟨_, h3, rfl, rfl⟩, h4⟩
+
+/-- COPY answers OK [COPYUID uidvalidity src dst] where `src` are the UIDs of the addressed
+    messages and `dst` the UIDs of their copies, in order; the destination is the old content
+    followed by the copies under exactly those UIDs; nothing else changes (no COPYUID when the set
+    addresses nothing) -/
+theorem copyuid_names (st : St) (cid : Nat) (uid : Bool) (set : NumSet.Set) (dest : Str) (c : Conn) (o d : Mbox)
+    (h : selected st cid = some (c, o)) (hd : (st.lookup dest).bind st.getObj = some d) (hne : d.id ≠ o.id) :
+    let r := doCopy {} st cid uid set dest
+    let src := addressed c o uid set
+    let dst := List.range' d.uidNext src.length
+    r.2.status = .ok ∧
+    r.2.code = (if src.isEmpty then Code.none else .copyuid d.uidValidity (src.map (·.2.uid)) dst) ∧
+    (∃ d', r.1.getObj d.id = some d' ∧
+      d'.msgs = d.msgs ++ ((src.map (·.2)).zip dst).map (fun p => { p.1 with uid := p.2 }) ∧ d'.uidNext = d.uidNext + src.length) ∧
+    ∀ id', id' ≠ d.id → r.1.getObj id' = st.getObj id' := by
+  obtain ⟨h1, h2, h3, h4⟩ := doCopy_spec st cid uid set dest c o d h hd hne
+  obtain ⟨p1, p2, _, _⟩ := pushAll_msgs ((addressed c o uid set).map (·.2)) d
+  rw [List.length_map] at p1 p2
+  refine ⟨h1, ?_, ⟨_, h3, p1, p2⟩, h4⟩
+  rw [h2]
+  unfold copyCode
+  simp only [List.isEmpty_map]
+  rfl
+
+/-! ### STORE -/
+
+/-- STORE changes exactly the addressed messages' flags: afterwards the selected mailbox is the old
+    one with `storeFlags op · flags` applied to the flags of the addressed messages and nothing
+    else (`mapAddressed`, spelled out by `mapAddressed_msgs`: UIDs, dates, content, order, uidNext and
+    every other message are untouched), and no other mailbox changes -/
+theorem store_exact (cfg : Cfg) (st : St) (cid : Nat) (uid : Bool) (set : NumSet.Set) (op : StoreOp) (silent : Bool)
+    (flags : List Str) (c : Conn) (o : Mbox) (h : selected st cid = some (c, o)) :
+    let r := doStore cfg st cid uid set op silent flags
+    let uids := (addressed c o uid set).map (·.2.uid)
+    r.1.getObj o.id = some (mapAddressed uids (fun old => storeFlags op old flags) o) ∧
+    ∀ id', id' ≠ o.id → r.1.getObj id' = st.getObj id' := by
+  obtain ⟨ho, _, _⟩ := selected_getObj h
+  obtain ⟨s1, s2⟩ := storeApply_getObj st cid o (addressed c o uid set) op flags ho
+  have hc := doStore_core cfg st cid uid set op silent flags c o h
+  exact ⟨by rw [getObj_congr hc]; exact s1, fun id' hne => by rw [getObj_congr hc]; exact s2 id' hne⟩
+
+/-- what `mapAddressed` is: the same mailbox, the same messages in the same order, only the flags of
+    the messages whose UID is listed are rewritten -/
+theorem mapAddressed_msgs (uids : List Nat) (f : List Str → List Str) (o : Mbox) :
+    mapAddressed uids f o = { o with msgs := o.msgs.map fun m => if uids.contains m.uid then { m with flags := f m.flags } else m } :=
+  rfl
+
+/-- FLAGS replaces, +FLAGS adds, -FLAGS removes, on lower-cased (case-insensitive) flag names -/
+theorem store_flags_sem (op : StoreOp) (old fs : List Str) (x : Str) :
+    x ∈ storeFlags op old fs ↔
+      match op with
+      | .set => x ∈ fs.map lower
+      | .add => x ∈ old ∨ x ∈ fs.map lower
+      | .del => x ∈ old ∧ x ∉ fs.map lower :=
+  mem_storeFlags op old fs x
+
+example : storeFlags .del [deletedFlag, seenFlag] [[92, 68, 69, 76, 69, 84, 69, 68]] = [seenFlag] := by decide
+
+/-! ### EXPUNGE / MOVE -/
+
+/-- EXPUNGE / UID EXPUNGE leave exactly the messages that are not (\Deleted and, for UID EXPUNGE,
+    in the set), in order; uidNext and UIDVALIDITY are kept; no other mailbox changes -/
+theorem expunge_exact (st : St) (cid : Nat) (uids : Option NumSet.Set) (c : Conn) (o : Mbox)
+    (h : selected st cid = some (c, o)) :
+    let r := doExpunge st cid uids
+    (∃ o', r.1.getObj o.id = some o' ∧ o'.msgs = o.msgs.filter (fun m => !eligible o uids m) ∧
+      o'.uidNext = o.uidNext ∧ o'.uidValidity = o.uidValidity) ∧
+    ∀ id', id' ≠ o.id → r.1.getObj id' = st.getObj id' :=
+  doExpunge_spec st cid uids c o h
+
+/-- MOVE removes exactly the addressed messages from the source and appends their copies to the
+    destination; no other mailbox changes -/
+theorem move_exact (st : St) (cid : Nat) (uid : Bool) (set : NumSet.Set) (dest : Str) (c : Conn) (o d : Mbox)
+    (h : selected st cid = some (c, o)) (hd : (st.lookup dest).bind st.getObj = some d) (hne : d.id ≠ o.id) :
+    let r := doMove {} st cid uid set dest
+    r.2.status = .ok ∧
+    r.1.getObj d.id = some (pushAll d ((addressed c o uid set).map (·.2))) ∧
+    (∃ o', r.1.getObj o.id = some o' ∧
+      o'.msgs = ((zipSeq o.msgs).filter fun q => !isAddressed c o uid set q).map (·.2) ∧ o'.uidNext = o.uidNext) ∧
+    ∀ id', id' ≠ d.id → id' ≠ o.id → r.1.getObj id' = st.getObj id' :=
+  doMove_spec st cid uid set dest c o d h hd hne
+
+/-- what "appends their copies" means: the old content followed by the copies, numbered from the old
+    uidNext on; identity and UIDVALIDITY kept -/
+theorem copies_spec (ms : List Message) (o : Mbox) :
+    (pushAll o ms).msgs = o.msgs ++ (ms.zip (List.range' o.uidNext ms.length)).map (fun p => { p.1 with uid := p.2 }) ∧
+    (pushAll o ms).uidNext = o.uidNext + ms.length ∧ (pushAll o ms).uidValidity = o.uidValidity ∧ (pushAll o ms).id = o.id :=
+  pushAll_msgs ms o
+
+/-! ### SEARCH / LIST -/
+
+/-- SEARCH answers with exactly the messages of the mailbox that satisfy `matchesC` (M5) for the
+    criteria built from the keys (`*` made static), by client sequence number or by UID -/
+theorem search_sem (st : St) (cid : Nat) (uid : Bool) (keys : Search.KeyList) (c : Conn) (o : Mbox)
+    (h : selected st cid = some (c, o)) :
+    (∃ polled, (doSearch st cid uid none keys).2.items =
+      Item.search (if uid then (searchHits c o (Search.foldKeys keys)).map (·.2.uid)
+                   else ((searchHits c o (Search.foldKeys keys)).map (·.1)).filter (· != 0)) :: polled) ∧
+    ∀ e m, (e, m) ∈ searchHits c o (Search.foldKeys keys) ↔
+      (∃ i, (i, m) ∈ zipSeq o.msgs ∧ e = encodeSeq c o i) ∧
+      Search.matchesC (toSearchMsg m e) (staticCrit o.msgs.length (o.uidNext - 1) (Search.foldKeys keys)) = true :=
+  ⟨doSearch_spec st cid uid keys c o h, mem_searchHits c o _⟩
+
+/-- LIST selects exactly the mailbox names that some pattern resolves to under the reference
+    (C20's `Resolved`: reference completed by the delimiter, then the wildcard semantics) -/
+theorem list_sem (st : St) (ref : Str) (pats : List Str) (p : Str × Nat) :
+    p ∈ listMatches st ref pats ↔ p ∈ st.names ∧ ∃ pat ∈ pats, C20.Resolved (some slash) ref pat p.1 := by
+  rw [mem_listMatches]
+  constructor
+  · rintro ⟨h1, pat, hp, hm⟩
+    exact ⟨h1, pat, hp, (C20.MatchList_resolved p.1 (some slash) ref pat).mp hm⟩
+  · rintro ⟨h1, pat, hp, hm⟩
+    exact ⟨h1, pat, hp, (C20.MatchList_resolved p.1 (some slash) ref pat).mpr hm⟩
+
+/-! ### body sections -/
 
 /-- no message, section and partial range makes the (repaired) body-section function panic -/
 theorem section_total (m : Message) (s : Section) : bodySection {} m s ≠ .panic := by
@@ -40,6 +246,52 @@ theorem legacy_section_counterexample :
     bodySection { legacyPartial := true }
       { uid := 1, flags := [], date := 0, zone := 0, hdrs := [], body := [104, 105], sentDay := 0, sentErr := false }
       { range := some (1, 9223372036854775807) } = .panic := by
+  decide
+
+/-! ### the other repaired behaviours, on concrete histories -/
+
+def sent : Str := [83, 101, 110, 116]
+def app (b : Nat) : Nat × Cmd := (1, .append inboxName [] none [] [b] 0 false)
+
+/-- MOVE 2 of 3 as shipped: `* 3 EXPUNGE` (re-encoded, wrong number) and then `* 2 EXPUNGE` for ONE
+    moved message; the repaired model reports it once with the right number -/
+theorem legacy_move_counterexample :
+    (((run { legacyMove := true } (init 1) [app 97, app 98, app 99, (1, .create sent), (1, .select inboxName false),
+        (1, .move false [⟨2, 2⟩] sent)]).2.getLast?.map fun r => r.items.filter fun i => match i with | .expunge _ => true | _ => false)
+      == some [.expunge 3, .expunge 2]) = true ∧
+    (((run {} (init 1) [app 97, app 98, app 99, (1, .create sent), (1, .select inboxName false),
+        (1, .move false [⟨2, 2⟩] sent)]).2.getLast?.map fun r => r.items.filter fun i => match i with | .expunge _ => true | _ => false)
+      == some [.expunge 2]) = true := by
+  decide
+
+/-- UID FETCH of a message appended by another connection and not yet announced, as shipped: `* 0 FETCH` -/
+theorem legacy_fetch_zero_counterexample :
+    ((run { legacyFetchZero := true } (init 2) [app 97, (1, .select inboxName false), (2, .append inboxName [] none [] [98] 0 false),
+        (1, .fetch true [⟨1, 0⟩] {})]).2.getLast?.map fun r => r.items.map fun i => match i with | .fetch k _ => k | _ => 99)
+      = some [1, 0, 99] ∧
+    ((run {} (init 2) [app 97, (1, .select inboxName false), (2, .append inboxName [] none [] [98] 0 false),
+        (1, .fetch true [⟨1, 0⟩] {})]).2.getLast?.map fun r => r.items.map fun i => match i with | .fetch k _ => k | _ => 99)
+      = some [1, 99] := by
+  decide
+
+/-- `5:7,*` on three messages: replacing `*` in place leaves [5-7, 3-3], on which Contains's binary
+    search does not find 3; inserting the static ranges into a fresh set does -/
+theorem legacy_static_set_counterexample :
+    NumSet.contains (Legacy.staticSet 3 [⟨5, 7⟩, ⟨0, 0⟩]) 3 = false ∧ NumSet.contains (staticSet 3 [⟨5, 7⟩, ⟨0, 0⟩]) 3 = true := by
+  decide
+
+/-- STATUS (DELETED-STORAGE) as shipped dereferenced a nil pointer (connection crash) -/
+theorem legacy_status_counterexample :
+    (step { legacyStatusNil := true } (init 1) 1 (.status inboxName ⟨[.messages, .deletedStorage]⟩)).2.status = .panic ∧
+    ((step {} (init 1) 1 (.status inboxName ⟨[.messages, .deletedStorage]⟩)).2 == ok [.status inboxName [(.messages, some 0)]]) = true := by
+  decide
+
+/-- COPY of a set matching nothing as shipped: the COPYUID code could not be encoded (truncated reply) -/
+theorem legacy_copy_empty_counterexample :
+    (((run { legacyCopyEmpty := true } (init 1) [(1, .create sent), (1, .select inboxName false), (1, .copy false [⟨5, 5⟩] sent)]).2.getLast?.map
+        (·.code)) == some .garbled) = true ∧
+    (((run {} (init 1) [(1, .create sent), (1, .select inboxName false), (1, .copy false [⟨5, 5⟩] sent)]).2.getLast?.map
+        (·.code)) == some .none) = true := by
   decide
 
 end GoImap.C09
